@@ -116,7 +116,7 @@ m = {
  "setup_cmd": "./setup.sh",
  "hooks": {
    "guard": "verif-overlay (no guarded code is committed in /repo: instrumentation is generated at check time by /verif/vinstr and applied with `go build -overlay`)",
-   "enable": "bin/vcheck rewrites the non-test sources of github.com/tsuna/gohbase{,/region,/hrpc} from /repo's working tree (go/select/chan ops/map ranges -> verif/vrt; sync, sync/atomic, time, context -> shims), adds /verif/_inpkg/* accessor files to the packages and builds cmd/vworker with -overlay",
+   "enable": "bin/vcheck rewrites the non-test sources of github.com/tsuna/gohbase{,/region,/hrpc} from /repo's working tree (go/select/chan ops/map ranges/%p formatting -> verif/vrt; sync, sync/atomic, time, context -> shims), adds /verif/_inpkg/* accessor files to the packages and builds cmd/vworker with -overlay",
    "baseline_off_cmd": "cd /repo && GOFLAGS=-mod=mod GOPROXY=off GOSUMDB=off go test -vet=off -count=1 ./...",
    "source_commits": FIX_COMMITS,
    "add_only": True
